@@ -16,7 +16,7 @@ JUDGE_PROPS["C11"] = ["C11", "C04"]
 JUDGE_PROPS["C10"] = ["C04"]       # store side of "never stranded" = no lost wake-up   # "retrievable from t+d onwards" is judged by the wake-up rule on timed stores
 
 # properties that (also) depend on the node automata and factory-level judges
-NODE_PROPS = {"C03", "C08", "C09", "C10", "C15", "C17", "C18", "C19", "C20"}
+NODE_PROPS = {"C03", "C08", "C09", "C10", "C15", "C16", "C17", "C18", "C19", "C20"}
 
 def node_stage(pid, tier, seed, known, cov, violations, known_hits):
     import node_family
